@@ -145,7 +145,7 @@ def one_case(rng, res, intern, stream, root, label):
     else:
       expected = canon_subst(root, is_match, None)
       nonmatching_ids = {id(b) for b in all_b if not is_match(b)
-                         and not any(b in c02.reachable(w) and b is not w for w in want)}
+                         and not any(c02.contains(w, b) and b is not w for w in want)}
       try:
         sel.replace(value, deepcopy=deep)
       except Exception as e:  # pylint: disable=broad-except
